@@ -58,10 +58,13 @@ def first_difference(a, b):
 
 def prepare(ctx, prop_name="regenerated:every span primitive of the grammar has an executable reading (Gen/GenPrims.v)"):
     """regenerate, check that nothing is unknown, build the extracted interpreter -> facts or None"""
-    import svx_grammar, svx_prims
+    import svx_grammar, svx_prims, svx_lexers
     try:
         gf = svx_grammar.main()
+        lf = svx_lexers.main()          # Gen/GenLexers.v: the tables the PLex primitives refer to
         pf = svx_prims.main()
+        if lf["bad"] or len(lf["names"]) != 15:
+            pf["unknown"] = list(pf["unknown"]) + ["token lexers: " + "; ".join(lf["bad"])[:200]]
         ok = not pf["unknown"] and gf["n_bad"] == 0 and pf["keyword_guard"]
         detail = "; ".join(pf["unknown"])[:300] or ("%d primitives, %d free-text lexers, grammar %s prims %s" % (
             pf["primitives"], len(pf["span_lexers"]), gf["hash"], pf["hash"]))
